@@ -350,4 +350,7 @@ def _get_uint_dtype(max_value):
 def _get_bytes_for_type(this_dtype):
     if np.issubdtype(this_dtype, np.integer):
         return np.iinfo(this_dtype).bits//8
-    return np.finfo(this_dtype).bits//8
+    if np.issubdtype(this_dtype, np.floating):
+        return np.finfo(this_dtype).bits//8
+    # e.g. a boolean matrix
+    return np.dtype(this_dtype).itemsize
